@@ -4,6 +4,12 @@ EXTENDS Writer
 M(sz, t) == [sz |-> sz, topic |-> t]
 AllOutcomes == { o \in Outcomes : (o.ok => ~o.retriable) }
 
+O3 == { [applied |-> TRUE, ok |-> TRUE, retriable |-> FALSE],
+        [applied |-> TRUE, ok |-> FALSE, retriable |-> TRUE],
+        [applied |-> FALSE, ok |-> FALSE, retriable |-> FALSE] }
+O2 == { [applied |-> TRUE, ok |-> TRUE, retriable |-> FALSE],
+        [applied |-> FALSE, ok |-> FALSE, retriable |-> TRUE] }
+
 Base == [batchSize |-> 2, batchBytes |-> 3, maxAttempts |-> 2, acked |-> TRUE, async |-> FALSE,
          topic |-> "t", nparts |-> [t |-> 2], close |-> TRUE, metaFails |-> FALSE,
          outcomes |-> AllOutcomes,
@@ -35,15 +41,18 @@ Live1 == [Base EXCEPT !.nparts = [t |-> 1], !.outcomes = { o \in AllOutcomes : o
           !.plan = ( 1 :> [g |-> 1, msgs |-> <<M(1, ""), M(2, "")>>, cancellable |-> FALSE]
                   @@ 2 :> [g |-> 2, msgs |-> <<M(1, "")>>, cancellable |-> FALSE] )]
 
-ConfigsQuick == {Three, Seq2}
-ConfigsFull == {Base, Seq2, Over, Async, Three}
+ConfigsQuick == {Three, Over}
+BaseS == [Base EXCEPT !.outcomes = O2]
+AsyncS == [Async EXCEPT !.outcomes = O2, !.close = FALSE]
+ConfigsFull == {BaseS, Seq2, Over, AsyncS, Three}
 ConfigsLive == {Live1}
 
-OnlyBase == {Base}
+OnlyBase == {BaseS}
 OnlyOver == {Over}
 OnlyThree == {Three}
 OnlySeq2 == {Seq2}
-OnlyAsync == {Async}
+OnlyAsync == {AsyncS}
+OnlyLive1 == {Live1}
 CONSTANT ConfigSet
 MCInit == cfg \in ConfigSet /\ Init
 MCSpec == MCInit /\ [][Next]_vars
